@@ -1,13 +1,23 @@
 """C20 — output files appear atomically.
 Proof : coq/C20 (FsTrace syscall model; safe_publish recogniser; every prefix of an accepted trace shows
-        absent / old / a complete, closed, published version at FINAL).
+        absent / old / a complete, closed, published version at FINAL).  ProofsBuffered.v: a producer writing ANY
+        payload in ANY chunking through a user-space buffer of ANY capacity, then flush+close+rename, is accepted and
+        publishes exactly the payload; with the rename before flush+close it is rejected and, whenever bytes are
+        pending in user space at the rename, the prefix ending with the rename shows a strict prefix of the payload.
 Tie   : every producer runs in a subprocess under `strace -f`; the log is abstracted to FsTrace ops and (1) the
         extracted recogniser must accept it for every published path - fault-free, with an injected ENOSPC/EIO at
         every tracked syscall, and for every killed prefix; (2) the extracted `run` must predict the bytes found on
         disk for every tracked path after the (possibly killed) run.
 Search: real crash enumeration: SIGKILL injected at every tracked syscall (alone, and after an injected fault in the
         thorough tier); a reader then opens each published path: absent, or parses completely and equals the old
-        version or one of the complete versions of a fault-free run."""
+        version or one of the complete versions of a fault-free run.
+Payload sizes are part of the case space: what a kill loses is the user-space buffer of the file object, and whether
+        bytes sit there when a rename happens depends on size mod (download chunk, io buffer).  Every producer is
+        therefore also run with payload sizes that are NOT multiples of those (below one buffer, buffer+-1, k*chunk+r
+        with r < buffer and r > buffer, random non-multiples: `name@N` scenarios), and the positions right before and
+        right after EVERY rename are killed / faulted whatever the stride of the tier.  A fault-free trace the
+        recogniser rejects (or the model mispredicts) switches its group to stride 1: the verdict fails closed, the
+        search for a concrete partial file goes on."""
 import concurrent.futures as cf
 import io
 import json
@@ -28,6 +38,11 @@ PRODUCERS = {
     "download": {"finals": ["img.png"], "main": "ok", "more": ["retry429", "midfail", "http500"]},
     "render": {"finals": ["out.pdf", "status.json"], "main": "ok", "more": ["writerfail"]},
 }
+# `main@N` scenarios: the main scenario with payload size N (see vt/harness/c20_producers.py)
+RENAMES = ("rename", "renameat", "renameat2")
+DEFAULT_CHUNK = 16384        # transport.stream_download_to_temp(chunk_size=...) when the snapshot does not tell
+WRITER_STEP = 7000           # the dummy render writer of the harness writes in steps of 7000 bytes
+CORPUS = os.path.join(core.VERIF, "corpus", "C20")
 STALE = {"status.json": "status.json.tmp", "img.png": "img.png\xb7"}
 FAULTABLE = ("openat", "write", "pwrite64", "close", "rename", "renameat", "renameat2", "unlink", "unlinkat", "mkdir",
              "ftruncate", "fsync", "lseek")
@@ -51,7 +66,56 @@ def old_version(name):
     raise KeyError(name)
 
 
-def make_inputs(rng, base):
+def scenario_size(scenario):
+    return int(scenario.split("@", 1)[1]) if "@" in scenario else None
+
+
+def size_plan(rng, tier, B, chunk, io_default):
+    """payload sizes per producer.  B = buffer io.open() uses in the scratch file system (st_blksize), chunk = download
+    chunk.  Classes: below one buffer (everything is still in user space when the file object is closed); B-1 / B+1;
+    k*chunk + r with 0 < r < B (tail buffered) and with B < r (tail written through); random non-multiples.  The
+    thorough tier adds the exact multiples (no tail) and more random sizes."""
+    def r():
+        return rng.randrange(1, B)                      # 0 < r < B: never a multiple of B or of the chunk
+
+    def nonmult(hi):
+        while True:
+            n = rng.randrange(1, hi)
+            if n % B and n % chunk:
+                return n
+    thorough = tier == "thorough"
+    plan = {
+        "download": [1, B - 1, B + 1, chunk + r(), 2 * chunk + r(), chunk + B + r()],
+        "status": [B + r(), 2 * io_default + r()],
+        "zip": [r(), 2 * B + r()],
+        "makezip": [r()],
+        "render": [16 + r(), WRITER_STEP + r()],
+    }
+    if thorough:
+        plan["download"] += [0, B, 2 * B, chunk - 1, chunk, chunk + 1, 2 * chunk, io_default - 1, io_default + 1,
+                             3 * chunk + r()] + [nonmult(4 * chunk) for _ in range(4)]
+        plan["status"] += [1, B - 150, 3 * chunk + r()]
+        plan["zip"] += [1, B, chunk + r(), 4 * chunk + r()]
+        plan["makezip"] += [2 * B + r(), chunk + r()]
+        plan["render"] += [17, B, WRITER_STEP, 2 * WRITER_STEP + B + r(), 3 * WRITER_STEP + r()]
+    return {p: sorted(set(v)) for p, v in plan.items()}
+
+
+def load_corpus():
+    """corpus/C20/*.json: minimised past failures {producer, scenario, old}: always enumerated with stride 1"""
+    res = []
+    if os.path.isdir(CORPUS):
+        for fn in sorted(os.listdir(CORPUS)):
+            if fn.endswith(".json"):
+                with open(os.path.join(CORPUS, fn)) as f:
+                    o = json.load(f)
+                if o.get("producer") in PRODUCERS and isinstance(o.get("scenario"), str):
+                    res.append({"producer": o["producer"], "scenario": o["scenario"], "old": bool(o.get("old", True)),
+                                "file": fn})
+    return res
+
+
+def make_inputs(rng, base, zip_sizes=()):
     IN = os.path.join(base, "in")
     os.makedirs(os.path.join(IN, "nuwiki", "images"))
     files = {
@@ -63,6 +127,19 @@ def make_inputs(rng, base):
         "served.bin": b"\x89PNG\r\n" + bytes(rng.randrange(256) for _ in range(40000)),
         "rendered.bin": b"%PDF-1.4\n" + bytes(rng.randrange(256) for _ in range(30000)) + b"\n%%EOF\n",
     }
+    token = rng.getrandbits(48)
+    import random
+    for n in sorted(set(zip_sizes)):                 # nuwiki@N: the same collection with members of N bytes
+        os.makedirs(os.path.join(IN, "nuwiki@%d" % n, "images"))
+        rv = random.Random(token * 1000003 + n)
+        for rel, data in list(files.items()):
+            if not rel.startswith("nuwiki/"):
+                continue
+            if rel.endswith("revisions-1.txt"):
+                data = (data * (n // len(data) + 1))[:max(n, 40)]
+            elif rel.endswith(".png"):
+                data = bytes(rv.randrange(256) for _ in range(n))
+            files["nuwiki@%d/%s" % (n, rel[len("nuwiki/"):])] = data
     for rel, data in files.items():
         p = os.path.join(IN, rel)
         with open(p, "wb") as f:
@@ -290,10 +367,44 @@ def build():
     return core.ocaml_build("c20", "C20/Extract.v", "driver.ml")
 
 
-def plan_groups(tier):
+SIZED_QUICK = {      # (kill stride, fault strides) with / without a previous version; None = not run in the quick tier
+    "download": ((1, {"ENOSPC": 1}), (3, {})),
+    "status": ((3, {"ENOSPC": 4}), None),
+    "zip": ((3, {}), None),
+    "makezip": ((4, {}), None),
+    "render": ((2, {}), None),
+}
+
+
+def plan_groups(tier, sizes=None, corpus=()):
     """per (producer, scenario, previous version?): stride of the kill enumeration and of the fault enumeration per
-    error kind (0 = none).  thorough: every tracked syscall, both error kinds, everywhere."""
+    error kind (0 = none).  thorough: every tracked syscall, both error kinds, everywhere.  Whatever the stride, the
+    positions right before and right after every rename are always taken (see check)."""
     groups = []
+    seen = set()
+    for c in corpus:
+        g = {"producer": c["producer"], "scenario": c["scenario"], "old": c["old"], "main": False, "corpus": c["file"],
+             "kill": 1, "faults": {"ENOSPC": 1, "EIO": 1} if tier == "thorough" else {"ENOSPC": 1},
+             "faultable": FAULTABLE if tier == "thorough" else FAULTABLE[:-1]}
+        if (g["producer"], g["scenario"], g["old"]) not in seen:
+            seen.add((g["producer"], g["scenario"], g["old"]))
+            groups.append(g)
+    for prod, ns in (sizes or {}).items():
+        for n in ns:
+            sc = "%s@%d" % (PRODUCERS[prod]["main"], n)
+            for old in (True, False):
+                if (prod, sc, old) in seen:
+                    continue
+                g = {"producer": prod, "scenario": sc, "old": old, "main": False, "size": n}
+                if tier == "thorough":
+                    g.update(kill=1, faults={"ENOSPC": 1, "EIO": 1}, faultable=FAULTABLE)
+                else:
+                    q = SIZED_QUICK[prod][0 if old else 1]
+                    if q is None:
+                        continue
+                    g.update(kill=q[0], faults=dict(q[1]), faultable=FAULTABLE[:-1] if q[1] else ())
+                seen.add((prod, sc, old))
+                groups.append(g)
     for prod, spec in PRODUCERS.items():
         for sc in [spec["main"]] + spec["more"]:
             main = sc == spec["main"]
@@ -322,7 +433,10 @@ def check(run):
                 "raises).  Injections: none; SIGKILL at EVERY tracked syscall (strace inject=<syscall>:signal=KILL:when=k); "
                 "ENOSPC and EIO at every tracked openat/write/close/rename/unlink/mkdir (thorough: also lseek; ENOSPC also "
                 "persistent from that position on; and SIGKILL at every later tracked syscall of another name after a "
-                "fault).  distinct = distinct (producer, scenario, old?, injection); non-trivial = an injection is present")
+                "fault).  Payload sizes: each main scenario also as `name@N` with N not a multiple of the io buffer / download "
+                "chunk (below one buffer, buffer+-1, k*chunk+r with r<buffer and r>buffer, random; thorough: also the exact "
+                "multiples); the kill/fault positions right before and after every rename are taken whatever the stride.  "
+                "distinct = distinct (producer, scenario, old?, injection); non-trivial = an injection is present")
     run.trusted = [
         "Coq 8.16.1 kernel (coqc); vm_compute in the closed Examples only",
         "extraction (ExtrOcamlBasic directives only) + ocaml/c20/driver.ml (hex/decimal line protocol)",
@@ -333,6 +447,8 @@ def check(run):
         "hand-written FsTrace model of openat/write/pwrite/lseek/ftruncate/close/rename/unlink (coq/C20/FsTrace.v); "
         "tie = predicted bytes of every tracked path vs the disk after each (killed) run",
         "Linux: rename(2) replaces the target atomically; a SIGKILLed process loses exactly its user-space buffers",
+        "Model.bw_ops: write policy of CPython's BufferedWriter (fits -> keep; else flush, >= capacity -> write through); "
+        "only the C20_buffered_*/C20_early_rename_* theorems depend on it, for every capacity and chunking",
         "harness stubs: make_nuwiki (directory copy), httpx.MockTransport, render.get_writer_from_options/"
         "get_environment/init_tmp_cleaner, dummy writer",
     ]
@@ -349,14 +465,41 @@ def check(run):
     base = os.path.join(core.scratch(), "c20")
     shutil.rmtree(base, ignore_errors=True)
     os.makedirs(base)
-    IN, _files = make_inputs(run.rng, base)
+    # sizes that decide whether user-space buffered bytes exist at a rename: asked from the snapshot / the scratch fs
+    rc, out = core.sh(harness_cmd("params", "-", "-", "-"), cwd=core.VERIF, env=core.impl_env(src), timeout=120)
+    try:
+        prm = json.loads(out.strip().splitlines()[-1]) if rc == 0 else {}
+    except ValueError:
+        prm = {}
+    chunk = prm.get("chunk") or DEFAULT_CHUNK
+    io_default = prm.get("io_default") or 8192
+    B = os.stat(base).st_blksize
+    if not (1 < B <= 1 << 20):
+        B = io_default
+    zip_probe = [int(c["scenario"].split("@")[1]) for c in load_corpus()
+                 if c["producer"] in ("zip", "makezip") and "@" in c["scenario"]]
+    # make_inputs stays the first consumer of run.rng (the replay regenerates the same inputs from the seed); the
+    # sizes are drawn from an independent stream of the same seed
+    import random
+    fork = random.Random("c20-sizes-%d" % run.seed)
+    sizes = size_plan(fork, tier, B, chunk, io_default)
+    IN, _files = make_inputs(run.rng, base, zip_sizes=sizes["zip"] + sizes["makezip"] + zip_probe)
     counter = [0]
 
     def nxt():
         counter[0] += 1
         return counter[0]
 
-    groups = plan_groups(tier)
+    corpus = load_corpus()
+    groups = plan_groups(tier, sizes, corpus)
+    run.obligation("payload sizes cover the buffered-tail classes for every producer",
+                   all(any(n % B and n % chunk for n in sizes[p]) for p in PRODUCERS) and
+                   any(n < B for n in sizes["download"]) and
+                   any(n > chunk and 0 < n % chunk < B for n in sizes["download"]) and
+                   any(n > chunk and n % chunk > B for n in sizes["download"]),
+                   "io buffer %d, download chunk %s (%s), sizes %s" % (
+                       B, chunk, "from the snapshot" if prm.get("chunk") else "default: " + str(prm.get("chunk_error")),
+                       sizes))
     pool = cf.ProcessPoolExecutor(max_workers=min(16, core.NPROC))
     # --- phase A: complete versions (record run, no strace) per (producer, scenario)
     vers = {}
@@ -388,19 +531,37 @@ def check(run):
     futs = []
     planned = {"kill": 0, "fault": 0, "fault+kill": 0}
     fault_jobs = []
+    forced_n = 0
+    upgraded = []
     for g, r in base_runs:
         rel = r["relevant"]
         nth = {}
+        if not r["accept"] or not all(r["accept"].values()) or r["model_diff"] or any(r["reader"].values()):
+            # the fault-free trace is already outside the proved language (or the model mispredicts it): the verdict
+            # is lost anyway (tie below); search this group exhaustively for a concrete partial file
+            g["kill"] = 1
+            g["faults"] = dict(g["faults"], ENOSPC=1)
+            g["faultable"] = g["faultable"] or FAULTABLE[:-1]
+            upgraded.append("%s/%s/%s" % (g["producer"], g["scenario"], "old" if g["old"] else "fresh"))
+        # right before and right after every rename (kill@j = the j-th tracked syscall is NOT executed, all earlier
+        # ones are): never skipped by a stride
+        forced = set()
+        for j in range(len(rel)):
+            if rel[j][1] in RENAMES:
+                forced.add(j)
+                if j + 1 < len(rel):
+                    forced.add(j + 1)
         for j in range(len(rel)):
             _i, name, k, _u, _inj = rel[j]
             d = rel_desc(rel, j)
-            if j % g["kill"] == 0:
+            if j % g["kill"] == 0 or j in forced:
+                forced_n += j % g["kill"] != 0
                 futs.append((g, j, pool.submit(one_run, job(g, ["%s:signal=KILL:when=%d" % (name, k)], "kill", "kill@" + d))))
                 planned["kill"] += 1
             if name in g["faultable"]:
                 for err, stride in g["faults"].items():
                     nth[err] = nth.get(err, -1) + 1
-                    if nth[err] % stride:
+                    if nth[err] % stride and j not in forced:
                         continue
                     whens = ["%d" % k] + (["%d+" % k] if tier == "thorough" and err == "ENOSPC" else [])
                     for when in whens:
@@ -499,6 +660,10 @@ def check(run):
     run.tie("injection hit the intended tracked syscall (kill: trace = prefix up to it)", planned["kill"] + planned["fault"],
             misaligned)
     dist["planned"] = planned
+    dist["kill_positions_forced_around_renames"] = forced_n
+    dist["groups_switched_to_stride_1"] = upgraded
+    dist["payload_sizes"] = dict(sizes, io_buffer=B, download_chunk=chunk)
+    dist["corpus"] = [c["file"] for c in corpus]
     dist["tracked_syscalls_per_fault_free_run"] = {"%s/%s/%s" % (g["producer"], g["scenario"], "old" if g["old"] else "fresh"):
                                                    len(r["relevant"]) for g, r in base_runs}
     run.coverage["input_distribution"] = dist
@@ -507,7 +672,9 @@ def check(run):
         "SIGKILL at every tracked syscall and ENOSPC/EIO (one-shot and persistent) at every tracked syscall of every scenario, "
         "with and without a previous version" if tier == "thorough" else
         "with a previous version: SIGKILL and ENOSPC at every tracked syscall (EIO at every 2nd) of the 5 main scenarios; "
-        "stride 3 without previous version; stride 4 for the 9 other scenarios")
+        "stride 3 without previous version; stride 4 for the 9 other scenarios; sized download scenarios: every "
+        "tracked syscall (kill, ENOSPC) with a previous version, stride 3 without; other sized scenarios stride 2-4; "
+        "the positions right before/after every rename are always included; corpus scenarios stride 1")
 
 
 def base_runs_name(base_runs, g, j):
@@ -529,7 +696,9 @@ def replay(obj):
     os.makedirs(base)
     import random
     seed = int(os.environ.get("VERIF_SEED", "0") or 0)
-    IN, _ = make_inputs(random.Random(seed * 1000003 + 20), base)
+    n = scenario_size(rp["scenario"])
+    IN, _ = make_inputs(random.Random(seed * 1000003 + 20), base,
+                        zip_sizes=[n] if n is not None and rp["producer"] in ("zip", "makezip") else [])
     vers = record_versions(src, base, 1, rp["producer"], rp["scenario"], IN)
     r = one_run({"src": src, "exe": exe, "shim": build_shim(), "base": base, "n": 2, "producer": rp["producer"],
                  "scenario": rp["scenario"], "old": rp["old"], "IN": IN, "inject": rp["inject"],
